@@ -172,6 +172,15 @@ func runCheck(prop, tier, only string, verbose bool) int {
 		fmt.Println("INCONCLUSIVE: cannot load /repo with harness overlay:", err)
 		return 2
 	}
+	if os.Getenv("VERIF_ALL_ASSERTS") != "" && scratchOut() != "" {
+		// development only (scratch runs): count the assertions of every property in the shared harnesses, so that one
+		// exploration of the Muxer tasks answers for C01, C04, C05 and C17 at once
+		cp := append([]TaskSpec{}, specs...)
+		for i := range cp {
+			cp[i].Asserts = nil
+		}
+		specs = cp
+	}
 	// tasks
 	var runs []*taskRun
 	var notCompiled []string
